@@ -1,36 +1,17 @@
-"""Static description of every check (used by the runner and by the MANIFEST generator)."""
+"""Static description of every check: vpbt/props/<ID>.meta.json (used by the runner and by
+tools/gen_manifest.py). Keys: title, technique, rule, level_text, assumptions, design_ref,
+shards {quick, thorough}, optional level, exhaustive {quick, thorough}, timeout {quick, thorough}."""
+
+import glob
+import json
+import os
 
 META = {}
-
-
-def reg(pid, **kw):
-    kw.setdefault("level", "exploration")
-    kw.setdefault("shards", {"quick": 16, "thorough": 64})
-    kw.setdefault("assumptions", [])
-    META[pid] = kw
-
-
-reg(
-    "C18",
-    title="Selections form a Boolean algebra over static addresses",
-    shards={"quick": 16, "thorough": 32},
-    technique="bounded-exhaustive enumeration of selection terms against a compositional membership model + Hypothesis random deeper terms",
-    rule=(
-        "Terms: all terms of depth <=1 over 9 bases {all,none,leaf,at[a],at[b],at[a,b],at[...,a],at[a,...],at[...]} "
-        "with ~, |, &, extend(a|b|...); quick adds a seed-chosen 1/13 residue class of the 86k depth-2 terms, thorough all of them; "
-        "plus Hypothesis terms with up to 8 leaves. Each term is checked on all 40 addresses of length <=3 over {a,b,c}: "
-        "S[addr], addr in S, S(prefix)[suffix] for every split, and the unsimplified class instances. "
-        "A term is non-trivial when its construction reaches a simplification rule of a smart constructor "
-        "(all/none operand, equal operands, double negation, extend of none) or contains a wildcard; distinct = distinct term."
-    ),
-    exhaustive={"quick": False, "thorough": True},
-    assumptions=[
-        "membership model (vpbt/selmodel.py) is the Boolean combination stated in the property; '...' matches exactly one component",
-        "addresses are strings over {a,b,c}; length <= 3",
-    ],
-    design_ref="5/C18",
-    level_text=(
-        "Bounded-exhaustive exploration: every selection term up to depth 2 (thorough) over the stated bases, on every address "
-        "of length <=3, against an independent compositional membership model; random deeper terms by Hypothesis."
-    ),
-)
+_here = os.path.join(os.path.dirname(os.path.abspath(__file__)), "props")
+for _p in sorted(glob.glob(os.path.join(_here, "C*.meta.json"))):
+    with open(_p) as _f:
+        _m = json.load(_f)
+    _m.setdefault("level", "exploration")
+    _m.setdefault("shards", {"quick": 16, "thorough": 64})
+    _m.setdefault("assumptions", [])
+    META[os.path.basename(_p).split(".")[0]] = _m
